@@ -164,8 +164,10 @@ class KernelOracle:
                 kappa = float((xs - x) @ xi / (xi @ xi))
                 if not close(xs, x + kappa * xi, 1e-9):
                     raise core.Undecided("proposal does not fit x + kappa*xi")
-            if fk is not None:
-                return None, xs, True
+            if fk is not None or not np.isfinite(lxs):
+                if fk is None:
+                    self.ctx.hit("proposal_outside_support")
+                return None, xs, True           # NaN / -inf at the proposal (injected or genuine): never accepted
             return min(0.0, lxs - lx), xs, False
         if fam == "mala":
             xs, val, fk = self._last_eval(self.refs["p_logd"])
@@ -184,7 +186,9 @@ class KernelOracle:
                 raise core.Undecided("proposal does not fit x + c*grad + xi")
             lx, lxs = self.refs["ref_logd"](x), self.refs["ref_logd"](xs)
             self._mag = abs(lx) + abs(lxs)
-            if fk is not None:
+            if fk is not None or not np.isfinite(lxs):
+                if fk is None:
+                    self.ctx.hit("proposal_outside_support")
                 return None, xs, True
             gs = self.refs["ref_grad"](xs)
             q_fwd = -0.5 * float(np.sum((xs - (x + c * g)) ** 2)) / eps      # q(x*|x)
@@ -332,8 +336,10 @@ def gen_case(r, tier):
                 ops.append({"op": "state_roundtrip"})
             elif x < 0.88:
                 ops.append({"op": "reload"})
-            elif x < 0.92:
+            elif x < 0.905:
                 ops.append({"op": "retarget"})
+            elif x < 0.925:
+                ops.append({"op": "retarget_other"})
             elif x < 0.95:
                 ops.append({"op": "set_scale", "factor": r.choice([0.3, 0.5, 2.0])})
             elif x < 0.965:
@@ -449,6 +455,7 @@ class MHRun:
         self._arm_faults(refs["p_logd"] if FAMILY[self.kind] != "pcn" else refs["p_forward"], o)
         fs = core.SimFS(ctx)
         fs.install()
+        cur_sc = sc                       # the scenario of the target the live sampler currently points at
         o.check_cache(s.current_point, self._cached(s), "after_initialize")
         if isinstance(sc["knobs"].get("scale"), list):
             ctx.hit("per_component_scale")
@@ -475,7 +482,7 @@ class MHRun:
             elif k == "reload":
                 s.save_checkpoint("ck")
                 with core.setup_stream(self.setup_seed):
-                    s2, info2 = zoo.build_exp_sampler(ctx, sc, callback=cb)
+                    s2, info2 = zoo.build_exp_sampler(ctx, cur_sc, callback=cb)
                     s2.load_checkpoint("ck")
                 refs2 = self._refs(info2)
                 o.refs.update(p_logd=refs2["p_logd"], p_forward=refs2["p_forward"], p_grad=refs2.get("p_grad"))
@@ -522,6 +529,26 @@ class MHRun:
                 s.scale = new if np.ndim(new) else float(new)
                 o.history = "after_scale_assignment"
                 ctx.fault("scale_reassigned")
+            elif k == "retarget_other":
+                # the sampler is pointed at ANOTHER target of the same kind and re-initialised
+                if FAMILY[self.kind] in ("rw", "cwmh", "mala", "ula"):
+                    sc2 = dict(cur_sc, target=dict(cur_sc["target"], zseed=cur_sc["target"]["zseed"] + 101,
+                                                    kind=cur_sc["target"]["kind"] if cur_sc["target"]["kind"] != "post" else "quartic"))
+                    k2 = dict(sc2["knobs"])
+                    if sc2["target"]["kind"] == "boxed":
+                        k2.pop("initial_point", None)
+                    sc2["knobs"] = k2
+                    cur_sc = sc2
+                    t2, info2 = zoo.build_exp_target(ctx, sc2)
+                    with core.setup_stream(self.setup_seed):
+                        s.target = t2
+                        s.reinitialize()
+                    refs2 = self._refs(info2)
+                    o.refs.update(ref_logd=refs2["ref_logd"], ref_grad=refs2["ref_grad"], p_logd=refs2["p_logd"],
+                                  p_grad=refs2.get("p_grad"))
+                    self._arm_faults(refs2["p_logd"], o)
+                    o.history = "after_retarget_other"
+                    ctx.fault("retarget_to_another_target")
             elif k == "retarget":
                 s.target = s.target          # public target setter on an initialised sampler
                 o.history = "after_retarget"
